@@ -32,6 +32,12 @@ CHECKS = {
             {"name": "api-bfs", "pkg": "pkg/verifapi", "harness": "api", "run": "^TestVerifC14$", "shards": 16, "shards_thorough": 16},
         ],
     },
+    "C15": {
+        "rule": "every ordered pair (old, new) of a configuration grammar (connector processors lists/orders x pipeline processors lists/orders x second connector present x one field edit) imported through the real provisioning service; for each import every store write index made to fail",
+        "parts": [
+            {"name": "import-pairs", "pkg": "pkg/verifimport", "harness": "imp", "run": "^TestVerifC15$", "shards": 16, "shards_thorough": 16},
+        ],
+    },
     "C17": {
         "rule": "positions: every byte string up to the stated length + nil/empty/large; fields: every text field x a 20-string Unicode class alphabet; nil/empty/one-element collections; every status and enum; reference-order permutations; generated pre-0.4.1 connector records and golden fixtures; each case is stored through the real services and read back by fresh services on a copy of the store",
         "parts": [
